@@ -237,7 +237,10 @@ def check_delimited(case):
 @st.composite
 def struct_cases(draw):
     route = draw(st.sampled_from(['pairs', 'records', 'items', 'pickle', 'deepcopy', 'pickle_he', 'pickle_go']))  # decisive choice first
-    rec = draw(gen.frame_recipe(min_rows=0, max_rows=5, min_cols=0, max_cols=5, kinds=('bool', 'int64', 'float64', '<U3', 'object', 'M8[D]', 'int32'),
+    # (column kinds: any mix, or numbers only / numbers and bools, whose rows would resolve to one numeric type)
+    kinds = draw(st.sampled_from([('bool', 'int64', 'float64', '<U3', 'object', 'M8[D]', 'int32'), ('int64', 'float64'), ('int64', 'float64', 'int32', 'bool'),
+                                  ('bool', 'int64', 'float64', '<U3')]))
+    rec = draw(gen.frame_recipe(min_rows=0, max_rows=5, min_cols=0, max_cols=5, kinds=kinds,
                                 index_kinds=('auto', 'int', 'str', 'date', 'ih'), column_kinds=('auto', 'int', 'str', 'ih')))
     return {'rec': rec, 'route': route,
             'iname': draw(st.sampled_from([None, 'in'])), 'cname': draw(st.sampled_from([None, 'cn']))}
@@ -296,6 +299,11 @@ def check_struct(case):
         raise Failure('labels', '%s: columns %s expected %s' % (route, short(got_cl), short(want_cl)))
     for j, (g, c) in enumerate(zip(obs.frame_cols(r), cols)):
         obs.expect_values(arr_list(g), arr_list(c), '%s col %d' % (route, j))
+    if route in ('pairs', 'items'):
+        # column-wise export: every column travels alone, so it comes back with the same kind of type
+        for j, (g, c) in enumerate(zip(obs.frame_cols(r), cols)):
+            if c.dtype.kind in 'biufU' and g.dtype.kind != c.dtype.kind and len(c):  # (bool / int / float / str columns, as quantified)
+                raise Failure('kind', '%s: column %d of kind %r (%s) came back as %r (%s): %s' % (route, j, c.dtype.kind, c.dtype, g.dtype.kind, g.dtype, short(arr_list(g), 120)))
     if not r.equals(f):
         raise Failure('equals', '%s: rebuilt frame does not equal the original' % route)
     return {'nt': n > 0 and m > 0, 'cls': ['struct:' + route]}
